@@ -257,7 +257,9 @@ theorem LayerInfo.dec_step {v pad : Nat} {li : LayerInfo} (hwf : li.WF v pad) {d
           rw [hRlen] at e3
           have e4 := channelImageDec_at (r0 :: rs0) (c0 :: css0) hshape hch hat.left
           rw [hR] at e4
-          simp only [LayerInfo.dec, LayerInfo.bodyDec, bind, Except.bind, e1, if_neg hne, e2, e3, e4]
+          have hnc : LayerInfo.normCount0 ⟨n, some (r1 :: R1), some (c0 :: css0)⟩ =
+              ⟨n, some (r1 :: R1), some (c0 :: css0)⟩ := by simp [LayerInfo.normCount0, h0]
+          simp only [LayerInfo.dec, LayerInfo.bodyDec, bind, Except.bind, e1, if_neg hne, e2, e3, e4, hnc]
           have hle : p + secW v + 2 + (listT (LayerRecord.encT v) (r1 :: R1)).length +
               (channelImageT (c0 :: css0)).length ≤ p + secW v + body.length := by
             rw [hbody]; simp only [List.length_append, length_i16T]; omega
@@ -374,14 +376,14 @@ theorem LayerAndMask.length_encT (v pad : Nat) (x : LayerAndMask) :
     (x.encT v pad).length = secW v + (x.bodyT v pad).length := by
   simp only [LayerAndMask.encT, length_lenBlockT, padAmount_one]; omega
 
-/-- `LayerAndMaskInformation.read` on the main stream. The section is followed by at least
-`follow ≥ 1` more bytes (the image data); the reader's `is_readable` probes look at them. -/
-theorem LayerAndMask.dec_at {v pad follow : Nat} {x : LayerAndMask} (hwf : x.WF v pad follow) {d : B} {p : Nat}
-    (hat : At d p (x.encT v pad)) (hfol : p + (x.encT v pad).length + follow ≤ d.length) (hf1 : 1 ≤ follow) :
+/-- `LayerAndMaskInformation.read` on the main stream, wherever the section sits: the reader's gates look at
+the section only (`fp.tell() + 4 <= end_pos`, `fp.tell() < end_pos`). -/
+theorem LayerAndMask.dec_at {v pad : Nat} {x : LayerAndMask} (hwf : x.WF v pad) {d : B} {p : Nat}
+    (hat : At d p (x.encT v pad)) :
     LayerAndMask.dec v d p = .ok (x.refresh, p + (x.encT v pad).length) := by
   have hw := secW_pos v
   obtain ⟨⟨_, _, _, hfb⟩, hrest⟩ := hwf
-  rw [LayerAndMask.length_encT] at hfol ⊢
+  rw [LayerAndMask.length_encT]
   unfold LayerAndMask.encT lenBlockT at hat
   simp only [zeros, List.replicate_zero, List.nil_append, List.append_assoc] at hat
   obtain ⟨e1, hat⟩ := readU_step hat hfb
@@ -395,7 +397,7 @@ theorem LayerAndMask.dec_at {v pad follow : Nat} {x : LayerAndMask} (hwf : x.WF 
     simp [LayerAndMask.bodyT, optT', LayerAndMask.refresh]
   | some li =>
     simp only at hrest
-    obtain ⟨hli, hg, hts, hgt, hgate⟩ := hrest
+    obtain ⟨hli, hg, hts, hgt⟩ := hrest
     have hbody : LayerAndMask.bodyT v pad ⟨some li, g, ts⟩ =
         li.encT v pad ++ (optT' GlobalLayerMaskInfo.encT g ++ optT' (taggedBlocksT v 4) ts) := by
       simp only [LayerAndMask.bodyT, optT', List.append_assoc]
@@ -412,52 +414,23 @@ theorem LayerAndMask.dec_at {v pad follow : Nat} {x : LayerAndMask} (hwf : x.WF 
     | none => simp at hts
     | some ts =>
       simp only at hts
-      simp only [optT'] at hat hblen hgate
+      simp only [optT'] at hat hblen
       cases g with
       | none =>
         have : ts = [] := by simpa using hgt rfl
         subst this
         simp only [optT', taggedBlocksT, listT, List.length_nil, Nat.add_zero] at hat hblen
-        have hpe : p + secW v + (li.encT v pad).length = p + secW v + body.length := by omega
-        have hg17 : (isReadable 17 d (p + secW v + (li.encT v pad).length) &&
-            decide (p + secW v + (li.encT v pad).length < p + secW v + body.length)) = false := by
-          rw [hpe]; simp
-        have hr1 : isReadable 1 d (p + secW v + (li.encT v pad).length) = true := by
-          simp only [isReadable, decide_eq_true_eq]; omega
-        have e3 : taggedBlocksDec v 4 (some (p + secW v + body.length)) d (p + secW v + (li.encT v pad).length) =
-            .ok ([], p + secW v + (li.encT v pad).length + (taggedBlocksT v 4 []).length) := by
-          apply taggedBlocksDec_at (Or.inr (Or.inr rfl)) hts (some _)
-          · simpa [taggedBlocksT, listT] using hat.left
-          · intro e he; cases he; simp only [taggedBlocksT, listT, List.length_nil]; omega
-          · simp only [taggedCond, taggedBlocksT, listT, List.length_nil, Nat.add_zero, hpe]
-            simp
-        simp only [LayerAndMask.dec, LayerAndMask.bodyDec, bind, Except.bind, e1, if_neg hne, e2]
-        simp only [hg17, Bool.false_eq_true, if_false, hr1, if_true, optItem, e3]
+        have hgate : ¬ (p + secW v + (li.encT v pad).length + 4 ≤ p + secW v + body.length) := by omega
+        simp only [LayerAndMask.dec, LayerAndMask.bodyDec, bind, Except.bind, e1, if_neg hne, e2, if_neg hgate]
         simp [LayerAndMask.refresh, Nat.add_assoc]
       | some g =>
         simp only [optProp] at hg
-        simp only [optT'] at hat hblen hgate
+        simp only [optT'] at hat hblen
         have hgl := g.length_encT hg.2.1
-        have hg17 : (isReadable 17 d (p + secW v + (li.encT v pad).length) &&
-            decide (p + secW v + (li.encT v pad).length < p + secW v + body.length)) = true := by
-          have h17 : isReadable 17 d (p + secW v + (li.encT v pad).length) = true := by
-            simp only [isReadable, decide_eq_true_eq]
-            cases ho : g.overlayColor with
-            | none =>
-              have := hgate ho
-              simp only [ho, Option.isSome_none] at hgl
-              simp only [Bool.false_eq_true, if_false] at hgl
-              omega
-            | some cs =>
-              simp only [ho, Option.isSome_some, if_true] at hgl
-              omega
-          have hlt : p + secW v + (li.encT v pad).length < p + secW v + body.length := by
-            have : 4 ≤ g.encT.length := by rw [hgl]; split <;> omega
-            omega
-          simp [h17, hlt]
+        have hgate : p + secW v + (li.encT v pad).length + 4 ≤ p + secW v + body.length := by
+          have : 4 ≤ g.encT.length := by rw [hgl]; split <;> omega
+          omega
         obtain ⟨e3, hat⟩ := GlobalLayerMaskInfo.dec_step hg hat
-        have hr1 : isReadable 1 d (p + secW v + (li.encT v pad).length + g.encT.length) = true := by
-          simp only [isReadable, decide_eq_true_eq]; omega
         have hpe : p + secW v + (li.encT v pad).length + g.encT.length + (taggedBlocksT v 4 ts).length =
             p + secW v + body.length := by omega
         have e4 : taggedBlocksDec v 4 (some (p + secW v + body.length)) d
@@ -466,8 +439,7 @@ theorem LayerAndMask.dec_at {v pad follow : Nat} {x : LayerAndMask} (hwf : x.WF 
           apply taggedBlocksDec_at (Or.inr (Or.inr rfl)) hts (some _) hat.nil_right.left
           · intro e he; cases he; omega
           · simp only [taggedCond, hpe]; simp
-        simp only [LayerAndMask.dec, LayerAndMask.bodyDec, bind, Except.bind, e1, if_neg hne, e2]
-        simp only [hg17, if_true, optItem, e3, hr1, e4]
+        simp only [LayerAndMask.dec, LayerAndMask.bodyDec, bind, Except.bind, e1, if_neg hne, e2, if_pos hgate, e3, e4]
         simp [LayerAndMask.refresh, Nat.add_assoc]
 
 /-! ## the whole file -/
@@ -499,7 +471,7 @@ theorem PSD.read_encT {pad : Nat} {x : PSD} (hwf : x.WF pad) :
   have e3 := resourcesDec_at hr hat.left
   have hat := hat.right
   have hil := x.imageData.length_encT
-  have e4 := LayerAndMask.dec_at hl hat.left (by omega) (by omega)
+  have e4 := LayerAndMask.dec_at hl hat.left
   have hat := hat.right
   have e5 := ImageData.dec_at_end hi hat (by omega)
   simp only [PSD.read, bind, Except.bind, e1, e2, e3, e4, e5]
